@@ -20,7 +20,7 @@ From SCC Require Import Proof.SubstGraph Proof.CodegenTotal Proof.CodegenX86 Pro
 From SCC Require Import Sem.FsFrag2 Proof.ShrinkExample2 Proof.ShrinkTyTop.
 From SCC Require Import Model.Fun2CoreTyGuard Proof.Fun2CoreTyRefute.
 From SCC Require Import Model.Uniquify Model.FocusTyGuard Proof.Fun2CoreProof Proof.Fun2CoreExamples Proof.Fun2CoreTyProg Proof.Fun2CoreTyTotal
-     Proof.Fun2CoreIds Proof.UqTyTop Proof.FocusTyTop Proof.WtPipeline Proof.WtExamples2.
+     Proof.Fun2CoreIds Proof.UqTyTop Proof.FocusTyTop Proof.FocusNamesTop Proof.WtPipeline Proof.WtExamples2.
 Import ListNotations.
 
 (* ======================================================================================== *)
@@ -196,6 +196,20 @@ Theorem C12_focus_preserves_typing : forall c f,
   wt_fs f = true /\ unique_binders f = true /\ ids_bounded f = true /\ gub f = true.
 Proof. exact focus_preserves_typing_thm. Qed.
 Print Assumptions C12_focus_preserves_typing.
+
+(* ... and the two remaining conjuncts of frag2t_prog, the fragment of the shrinking theorem:
+   names_ok  after Prog::focus identifiers with the same id are spelled alike: every occurrence is, by id, the first
+             binding of its scope with that id and carries its name (no side condition beyond typing and pre_check);
+   decls_ok  parameter types stay declared through uniquify + focus (wt_core checks them), the field types are those of
+             the input (xtor_tys_ok). *)
+Theorem C12_focus_names_ok : forall c f,
+  wt_core c = true -> pre_check c = true -> focus_prog c = Backend.Ok f -> FsFrag2.names_ok f = true.
+Proof. exact focus_names_thm. Qed.
+Print Assumptions C12_focus_names_ok.
+Theorem C12_focus_decls_ok : forall c f,
+  wt_core c = true -> pre_check c = true -> xtor_tys_ok c = true -> focus_prog c = Backend.Ok f -> FsFrag2.decls_ok f = true.
+Proof. exact focus_decls_ok. Qed.
+Print Assumptions C12_focus_decls_ok.
 
 (* ... and without the two side conditions the statement - hypothesis H_focus_wt of C12_pipeline_wt_partial /
    _fragment2, and [focus_preserves_typing] above - is FALSE:
@@ -432,6 +446,33 @@ Theorem C12_pipeline_wt : forall p,
     (forall lc, within_capacity_rv l = true -> exists code lc', rv_compile l lc = Backend.Ok (code, main_arity l, lc')).
 Proof. exact pipeline_wt_lemma. Qed.
 Print Assumptions C12_pipeline_wt.
+
+(* THE SAME WITH GUARDS ON THE SOURCE PROGRAM ONLY: names_ok and decls_ok of the focused program are proved
+   (C12_focus_names_ok, C12_focus_decls_ok); what remains is the boolean xtor_tys_guard p - the field types of all
+   (compiled) xtors are declared.  It is not implied by acceptance: the real checker's output is not closed under the
+   types it mentions (C15: a never-used xtor can carry a field of a never-declared type), and such programs are outside
+   (tag pipe-noguard:xtor-types).  So: for every annotated checked program that is well typed in the boolean sense of
+   tg, has no capture risk, does not call main, has an integer main and declared field types, ALL stages succeed, every
+   intermediate program is well-scoped and well-typed in its own language, and the three code generators return Ok
+   within their documented capacities. *)
+Theorem C12_pipeline_wt_source : forall p,
+  prog_tyguard p = true -> xtor_tys_guard p = true ->
+  exists c f a,
+    compile_prog p = Fun2Core.Ok c /\ wt_core c = true /\
+    focus_prog c = Backend.Ok f /\ wt_fs f = true /\
+    shrink_prog f = SOk a /\ AxCheck.wt_ax a = true /\ prog_ok a = true /\
+    let l := linearize a in
+    lin_check_prog l = true /\
+    (forall lc, within_capacity_x86 l = true -> exists code lc', x86_compile l lc = Backend.Ok (code, main_arity l, lc')) /\
+    (forall lc, within_capacity_a64 l = true -> exists code lc', a64_compile l lc = Backend.Ok (code, main_arity l, lc')) /\
+    (forall lc, within_capacity_rv l = true -> exists code lc', rv_compile l lc = Backend.Ok (code, main_arity l, lc')).
+Proof. exact pipeline_wt_source_lemma. Qed.
+Print Assumptions C12_pipeline_wt_source.
+(* non-vacuity: the five example programs satisfy both source guards *)
+Theorem C12_pipeline_wt_source_examples :
+  forallb (fun p => prog_tyguard p && xtor_tys_guard p) [ex_calls; ex_shared; ex_data; ex_labels; ex_codata] = true.
+Proof. vm_compute. reflexivity. Qed.
+Print Assumptions C12_pipeline_wt_source_examples.
 
 (* the hypotheses are the statements above *)
 Theorem C12_hypotheses_are_the_statements :
